@@ -747,6 +747,11 @@ impl ServiceDaemon {
         cmd_sender: Sender<Command>,
         signal_addr: SocketAddr,
     ) {
+        // verif seam: take the armed simulation context (if any) for this thread; the
+        // guard reports the end of the thread (normal or panic) when dropped.
+        #[cfg(feature = "verif-hooks")]
+        let _sim_guard = crate::verif::sim::install_armed();
+
         let mut zc = Zeroconf::new(signal_sock, poller, port, cmd_sender, signal_addr);
 
         if let Some(cmd) = zc.run(receiver) {
@@ -1103,6 +1108,12 @@ struct Zeroconf {
 
 /// Join the multicast group for the given interface.
 fn join_multicast_group(my_sock: &PktInfoUdpSocket, intf: &Interface) -> Result<()> {
+    // verif seam: simulated addresses cannot be joined on the real socket.
+    #[cfg(feature = "verif-hooks")]
+    if crate::verif::sim::active() {
+        return Ok(());
+    }
+
     let intf_ip = &intf.ip();
     match intf_ip {
         IpAddr::V4(ip) => {
@@ -1436,11 +1447,28 @@ impl Zeroconf {
                 Duration::from_millis(millis)
             });
 
+            // verif seam (loop gate): report the requested wake-up, park until the harness
+            // grants one iteration, then make the real poll return at once.
+            #[cfg(feature = "verif-hooks")]
+            let timeout = if crate::verif::sim::gate(earliest_timer) {
+                Some(Duration::ZERO)
+            } else {
+                timeout
+            };
+
             // Process incoming packets, command events and optional timeout.
             events.clear();
             match self.poller.poll(&mut events, timeout) {
                 Ok(_) => self.handle_poller_events(&events),
                 Err(e) => debug!("failed to select from sockets: {}", e),
+            }
+
+            // verif seam (ingress): the injected queues are always "readable"; drain them
+            // the way `handle_poller_events` drains a readable socket.
+            #[cfg(feature = "verif-hooks")]
+            if crate::verif::sim::active() {
+                while self.handle_read(IPV4_SOCK_EVENT_KEY) {}
+                while self.handle_read(IPV6_SOCK_EVENT_KEY) {}
             }
 
             let now = current_time_millis();
@@ -1812,6 +1840,9 @@ impl Zeroconf {
             if let Some(ipv4) = last_ipv4 {
                 debug!("leave multicast for {ipv4}");
                 if let Some(sock) = self.ipv4_sock.as_mut() {
+                    // verif seam: no setsockopt for simulated addresses.
+                    #[cfg(feature = "verif-hooks")]
+                    let sock = verif_hooks::SimMySock::new(&sock.pktinfo);
                     if let Err(e) = sock.pktinfo.leave_multicast_v4(&GROUP_ADDR_V4, &ipv4) {
                         debug!("leave multicast group for addr {ipv4}: {e}");
                     }
@@ -1821,6 +1852,9 @@ impl Zeroconf {
             if let Some(ipv6) = last_ipv6 {
                 debug!("leave multicast for {ipv6}");
                 if let Some(sock) = self.ipv6_sock.as_mut() {
+                    // verif seam: no setsockopt for simulated addresses.
+                    #[cfg(feature = "verif-hooks")]
+                    let sock = verif_hooks::SimMySock::new(&sock.pktinfo);
                     if let Err(e) = sock
                         .pktinfo
                         .leave_multicast_v6(&GROUP_ADDR_V6, my_intf.index)
@@ -1868,6 +1902,9 @@ impl Zeroconf {
                 IpAddr::V4(ipv4) => {
                     if my_intf.next_ifaddr_v4().is_none() {
                         if let Some(sock) = self.ipv4_sock.as_mut() {
+                            // verif seam: no setsockopt for simulated addresses.
+                            #[cfg(feature = "verif-hooks")]
+                            let sock = verif_hooks::SimMySock::new(&sock.pktinfo);
                             if let Err(e) = sock.pktinfo.leave_multicast_v4(&GROUP_ADDR_V4, &ipv4) {
                                 debug!("leave multicast group for addr {ipv4}: {e}");
                             } else {
@@ -1880,6 +1917,9 @@ impl Zeroconf {
                 IpAddr::V6(ipv6) => {
                     if my_intf.next_ifaddr_v6().is_none() {
                         if let Some(sock) = self.ipv6_sock.as_mut() {
+                            // verif seam: no setsockopt for simulated addresses.
+                            #[cfg(feature = "verif-hooks")]
+                            let sock = verif_hooks::SimMySock::new(&sock.pktinfo);
                             if let Err(e) =
                                 sock.pktinfo.leave_multicast_v6(&GROUP_ADDR_V6, if_index)
                             {
@@ -2480,6 +2520,11 @@ impl Zeroconf {
         // be truncated by the socket layer depending on the platform's libc.
         // In any case, such large datagram will not be decoded properly and
         // this function should return false but should not crash.
+        //
+        // verif seam (ingress): under simulation `recv` pops the injected queue of this
+        // socket's family (`WouldBlock` when empty) instead of reading the real socket.
+        #[cfg(feature = "verif-hooks")]
+        let sock = verif_hooks::SimMySock::new(&sock.pktinfo);
         let (sz, pktinfo) = match sock.pktinfo.recv(&mut buf) {
             Ok(sz) => sz,
             Err(e) => {
@@ -3030,6 +3075,9 @@ impl Zeroconf {
             // }
 
             // Probing again with the new names.
+            // verif seam (jitter): `fastrand` names the stand-in that returns the simulated value.
+            #[cfg(feature = "verif-hooks")]
+            use crate::verif::sim::fastrand_seam as fastrand;
             let create_time = current_time_millis() + fastrand::u64(0..250);
 
             let waiting_services = probe.waiting_services.clone();
@@ -4286,6 +4334,10 @@ fn my_ip_interfaces(with_loopback: bool) -> Vec<Interface> {
 }
 
 fn my_ip_interfaces_inner(with_loopback: bool, with_apple_p2p: bool) -> Vec<Interface> {
+    // verif seam (interface table): `if_addrs` names the stand-in whose `get_if_addrs()`
+    // returns the simulated list; the filter below is applied to it unchanged.
+    #[cfg(feature = "verif-hooks")]
+    use crate::verif::sim::if_addrs_seam as if_addrs;
     if_addrs::get_if_addrs()
         .unwrap_or_default()
         .into_iter()
@@ -4372,6 +4424,15 @@ fn send_dns_outgoing_impl(
         out.additionals().len()
     );
 
+    // verif seam (egress): remember interface and family for the capture below, and let
+    // `set_multicast_if_*` succeed without a syscall under simulation.
+    #[cfg(feature = "verif-hooks")]
+    crate::verif::sim::tx_intf(if_index, if_addr.ip().is_ipv4());
+    #[cfg(feature = "verif-hooks")]
+    let sim_sock = verif_hooks::SimSock(sock);
+    #[cfg(feature = "verif-hooks")]
+    let sock = &sim_sock;
+
     match if_addr.ip() {
         IpAddr::V4(ipv4) => {
             if let Err(e) = sock.set_multicast_if_v4(&ipv4) {
@@ -4437,6 +4498,12 @@ fn unicast_on_intf(packet: &[u8], if_name: &str, dest: SocketAddr, socket: &PktI
         return;
     }
 
+    // verif seam (egress): capture instead of sending.
+    #[cfg(feature = "verif-hooks")]
+    if crate::verif::sim::tx_unicast(dest, packet) {
+        return;
+    }
+
     let sock_addr = dest.into();
     match socket.send_to(packet, &sock_addr) {
         Ok(sz) => trace!(
@@ -4465,6 +4532,12 @@ fn multicast_on_intf(
 ) {
     if packet.len() > MAX_MSG_ABSOLUTE {
         debug!("Drop over-sized packet ({})", packet.len());
+        return;
+    }
+
+    // verif seam (egress): capture instead of sending.
+    #[cfg(feature = "verif-hooks")]
+    if crate::verif::sim::tx(if_index, if_addr.ip().is_ipv4(), None, packet) {
         return;
     }
 
@@ -4542,6 +4615,9 @@ fn prepare_announce(
 
     let mut probing_count = 0;
     let mut out = DnsOutgoing::new(FLAGS_QR_RESPONSE | FLAGS_AA);
+    // verif seam (jitter): `fastrand` names the stand-in that returns the simulated value.
+    #[cfg(feature = "verif-hooks")]
+    use crate::verif::sim::fastrand_seam as fastrand;
     let create_time = current_time_millis() + fastrand::u64(0..250);
 
     out.add_answer_at_time(
@@ -5817,3 +5893,7 @@ mod tests {
         client_default.shutdown().unwrap();
     }
 }
+
+#[cfg(feature = "verif-hooks")]
+#[path = "verif/daemon.rs"]
+pub mod verif_hooks;
